@@ -46,3 +46,7 @@ package parser
 //@   assumes @L-COMB forall k int :: {unbox(r.Val, "comb.List")[k]} 0 <= k && k < len(unbox(r.Val, "comb.List")) ==> typeis(unbox(r.Val, "comb.List")[k].Val, "int")
 //@   loop[0] invariant num == decval(l, __i0)
 //@   ensures @decimal result1 && typeis(result0.Val, "int") && unbox(result0.Val, "int") == decval(unbox(r.Val, "comb.List"), len(unbox(r.Val, "comb.List")))
+
+// the runes of a class: a new slice, nothing else changes
+//@ func (r RuneClass) Runes() []rune
+//@   assumed
